@@ -328,6 +328,21 @@ func runHs(t *testing.T, ksc KScenario, res *KResult) {
 	var extraTr []*quic.Transport
 	var extraPC []*simnet.SimConn
 	defer func() {
+		// C13, "the failing side releases its state": every connection of the workload has been closed or has failed by now;
+		// what the transports still hold (closing periods, connections created by delayed or forged Initials, connections
+		// nobody accepted) goes away by its closing period, handshake timeout or idle timeout - after that nothing may be left
+		if !res.Failed() && res.Blocked == "" && (on["C13"] || on["all"]) {
+			names, trs := []string{"client transport", "server transport"}, []*quic.Transport{nodes.CTr, nodes.STr}
+			for _, tr := range extraTr {
+				names, trs = append(names, "extra client transport"), append(trs, tr)
+			}
+			bound := time.Duration(max(nzIdle(sc.Cfg.IdleMS[0]), nzIdle(sc.Cfg.IdleMS[1])))*time.Millisecond + 2*max(hsIdle(&sc.Cfg, 0), hsIdle(&sc.Cfg, 1)) + 40*time.Second
+			if left := wDrained(names, trs, bound); left != "" {
+				report("C13", "a transport still holds state of connections long after every handshake has completed or failed and every connection was closed", "%s", left)
+			} else {
+				res.Probe("tables-drained")
+			}
+		}
 		for _, tr := range extraTr {
 			tr.Close()
 		}
